@@ -15,8 +15,7 @@ use zksync_consensus_roles::validator::{
 fn main() {
     quiet_panics();
     let a = args();
-    let weights: Vec<u64> = a[2].split(',').map(|x| x.parse().unwrap()).collect();
-    let c = Committee::new(&weights, 5);
+    let c = Committee::from_spec(&a[2], 5);
     let f = Forge { c: &c };
     let mut labels = Labels::default();
     let mut rep = Report::default();
